@@ -342,8 +342,8 @@ Proof. exact quantify_levels_not_stable. Qed.
 (** The hypothesis "operands are held" ([ref_by L s (absn u)]) is necessary:
     the same history with f = 10 not held.  The aborted first attempt is
     followed by sifting, whose initial collection frees node 10; the second
-    attempt fails with [KeyError] and dynamic reordering stays switched off
-    ([_last_len] is restored only after a successful second attempt). *)
+    attempt fails with [KeyError]; dynamic reordering stays enabled
+    ([_last_len] is restored whatever the outcome of the second attempt). *)
 Example C09_unheld_operand_refuted :
   let hist := [ONew [(0, 0); (1, 1); (2, 2); (3, 3)];
      OVar 0; OIncref 2; OVar 1; OIncref 3; OVar 2; OIncref 4; OVar 3; OIncref 5;
@@ -358,5 +358,5 @@ Example C09_unheld_operand_refuted :
   snd (step w0 0 o) = Ok (VZ 12) ∧
   snd (step w1 0 o) = Err EKey ∧
   last_len (world_get w1 0) = Some 100 ∧
-  last_len (world_get (fst (step w1 0 o)) 0) = None.
+  bool_decide (is_Some (last_len (world_get (fst (step w1 0 o)) 0))) = true.
 Proof. exact unheld_operand_lost. Qed.
